@@ -39,6 +39,9 @@ DotComp(s, cur) ==   \* cur: text of the current component so far
 
 Usable(o) == /\ o.outcome = "ok" /\ o.qpanic = "" /\ o.dfa.ok /\ (o.part.has_post => o.part.post_dfa.ok)
              /\ Parse(o.e).st = "ok"            \* expressions outside the documented syntax: no prediction
+             (* expressions that violate a documented rule and build all the same are findings of C06 *)
+             (* (KF23, KF24); what they mean is not defined, so nothing is claimed about partitioning *)
+             /\ ViolationsCF(Strip(Parse(o.e).toks)) = {}
              /\ ~DotComp(o.part.prefix, <<>>)
 
 Init ==
